@@ -249,7 +249,10 @@ def ref_entry(entry, reg, server_version):
     if out[0] == "unconvertible":
         return done("unconvertible-result", Exp("error", "unconvertible-result", eid, (-32603,), form=form), inv)
     exc_cls, msg = out[1], out[2]
-    text = str(exc_cls(msg)) if msg is not None else str(exc_cls())
+    try:
+        text = str(exc_cls(msg)) if msg is not None else str(exc_cls())
+    except TypeError:
+        text = ""   # an exception whose text cannot be produced: only its type name is required in the message
     cls = "raises-TypeError" if exc_cls is TypeError else "raises"
     return done(cls, Exp("error", cls, eid, (-32603,), form=form,
                          msg_parts=(exc_cls.__name__, text)), inv)
